@@ -26,7 +26,7 @@ ASSUMPTIONS = [
     "For unmapped records the decoded reference name may be any text that is not the name of a real reference (e.g. '*' or ''), or the read may raise.",
 ]
 REQUIRED_CLASSES = ["odd-sequence-length", "even-sequence-length", "empty-sequence", "long-read-name", "all-cigar-ops", "no-cigar", "missing-qualities",
-                    "unmapped", "tags", "multi-member-gzip", "chunked", "write-filtered", "write-reordered", "reverse-strand", "stream-ends-in-a-line-feed-byte"]
+                    "unmapped", "tags", "multi-member-gzip", "chunked", "write-filtered", "write-reordered", "reverse-strand", "stream-ends-in-a-line-feed-byte", "another-bam-read-first-then-write"]
 BOUNDS = {"quick": "480 files of up to 6 records (names up to 254, sequences up to 40), all admissible chunk sizes for small files",
           "thorough": "4000 files of up to 40 records, sequences up to 300"}
 BUDGET_S = {"quick": 200, "thorough": 1500}
@@ -63,6 +63,8 @@ def classify(case):
         cl.append("all-cigar-ops")
     if recs and bamenc.record_bytes(norm(recs[-1]))[-1:] == b"\n":
         cl.append("stream-ends-in-a-line-feed-byte")
+    if case.get("prior_read") and recs and case.get("write"):
+        cl.append("another-bam-read-first-then-write")
     if case.get("cuts"):
         cl.append("multi-member-gzip")
     if case.get("ks"):
@@ -123,6 +125,17 @@ def check(case, stats=None):
         path = os.path.join(d, "x.bam")
         with open(path, "wb") as f:
             f.write(comp)
+        if case.get("prior_read") and recs:
+            # another BAM with another header (other reference names, one record) is read first in the same process
+            prefs = [("p" + n_, s_ + 1) for n_, s_ in refs] or [("pchr", 7)]
+            prec = dict(recs[0], ref=0 if recs[0]["ref"] >= 0 else -1, name="prior")
+            with open(os.path.join(d, "prior.bam"), "wb") as f:
+                f.write(bamenc.compress(bamenc.raw_bam(prefs, [prec], ""), None))
+            try:
+                pt = bnp.open(os.path.join(d, "prior.bam")).read()
+                pt.name.tolist()
+            except Exception as e:
+                return [Failure(f"C16:raised:prior-file:{type(e).__name__}:{_where(e)}", {"error": repr(e)[:300]})]
         try:
             whole = None
             for lazy in (True, False):
@@ -256,7 +269,7 @@ def c16_case(draw, max_records, Lmax):
     refs = [["chr1", "chr10", "chrM", "x_alt"][i] for i in range(n_refs)]
     refs = [[r, draw(st.integers(1, 2 ** 29))] for r in refs]
     recs = draw(st.lists(record(n_refs, Lmax), min_size=draw(st.sampled_from([0, 1, 2, 2])), max_size=max_records))
-    case = {"refs": refs, "records": recs, "text": draw(st.sampled_from(["", "@HD\tVN:1.6\n"]))}
+    case = {"refs": refs, "records": recs, "text": draw(st.sampled_from(["", "@HD\tVN:1.6\n"])), "prior_read": draw(st.integers(0, 2)) == 0}
     raw_len = len(bamenc.raw_bam([tuple(r) for r in refs], [norm(r) for r in recs], case["text"]))
     if draw(st.booleans()):
         case["cuts"] = draw(st.lists(st.integers(1, max(1, raw_len - 1)), min_size=1, max_size=4))
